@@ -95,6 +95,9 @@ func (e *Engine) runBlock(st *State, fr *Frame, b *ssa.BasicBlock, pred *ssa.Bas
 		if e.dropAtBound {
 			return // bounded check (flag bounded=..., flag unwind=drop): longer runs are outside the stated bound
 		}
+		if e.autoCutWant != nil && e.contracts != nil && isLoopHeader(b) && e.loopInvariants(fr.fn, headerOrdinal(b)) == nil {
+			e.autoCutWant[fmt.Sprintf("%s/%d", fr.fn.String(), b.Index)] = true
+		}
 		st.incomplete = fmt.Sprintf("loop bound %d exceeded in %s block %d (%s)", e.loopBound, fr.fn.String(), b.Index, e.pos(b.Instrs[0].Pos()))
 		e.endPath(st)
 		return
